@@ -23,9 +23,11 @@ CATALOGUE = {
     "id_not_initial": ("COM2{n}", "Standard Serial over Bluetooth link (COM2{n})", "BTHENUM USB VID:PID=04D8:FD92 SER={name}"),
     # each signature belongs to ITS field: the product name at the start of the hardware id, or the id at the start of the description, is not a board
     "name_in_hwid": ("/dev/ttyS4{n}", "Serial adapter", "EiBotBoard lookalike {name}"),
+    # a board recognised by its description ALONE (the hardware id says nothing): the description test is not redundant with the id test
+    "desc_only": ("/dev/ttyACM7{n}", "EiBotBoard,{name}", "n/a"),
     "id_in_desc": ("COM3{n}", "USB VID:PID=04D8:FD92 bridge", "PCI VEN_8086 SER={name} LOCATION=0-{n}"),
 }
-DESC_IS_EBB = {"mac_named", "unnamed"}
+DESC_IS_EBB = {"mac_named", "unnamed", "desc_only"}
 ID_IS_EBB = {"mac_named", "unnamed", "win_ser", "win_snr", "vidpid_only"}
 FOREIGN_NEEDLES = ["zzz", "COM", "usb", "EiBot", "Lab", "ser", "east", "/dev/", "X2"]
 
@@ -219,7 +221,7 @@ def run(ctx):
                         "'no earlier port also matches' is read as: no earlier port's three strings contain the needle, ignoring case (weakest reading)",
                         "one EBB3 object is reused across all enumerations (stale state between calls is in scope)"]
     return ctx.finish(
-        rule="G: every list of <=2 ports (thorough: <=3, a third of the triples) over 13 descriptor templates (5 near misses) x 4 names, enumerated as pyserial ListPortInfo objects (indexable like the triples of pyserial 2.7, with .device/.description/.hwid); for every listed board the lookups by the "
+        rule="G: every list of <=2 ports (thorough: <=3, a third of the triples) over 14 descriptor templates (5 near misses, one board recognisable by its description alone) x 4 names, enumerated as pyserial ListPortInfo objects (indexable like the triples of pyserial 2.7, with .device/.description/.hwid); for every listed board the lookups by the "
              "name each layer reports, the SER=/SNR= tag and the device name, each in three letter cases, plus foreign needles; V: random lists of 0..5 ports "
              "over 13 names (underscore, mixed case, prefix pairs, a name that looks like a COM port, regex metacharacters, non-ASCII); distinct = distinct port lists",
         explanation="TLC enumerates the port lists at template level (checking the catalogue-level facts: first board is listed, description match wins), the harness "
